@@ -336,10 +336,24 @@ func (svr *Server) Close() error {
 		svr.lntls.Close()
 	}
 
-	for _, svc := range svr.svcs {
+	// Stop all services at the same time: a service's processor may be blocked
+	// delivering into another service's full buffer, so stopping them strictly
+	// one after the other could wait forever for a service that is only
+	// released when a later one is stopped.
+	svr.mu.Lock()
+	svcs := append([]*service(nil), svr.svcs...)
+	svr.mu.Unlock()
+
+	var wg sync.WaitGroup
+	for _, svc := range svcs {
 		log.Tracef("Stopping service: %d", svc.id)
-		svc.stop()
+		wg.Add(1)
+		go func(svc *service) {
+			defer wg.Done()
+			svc.stop()
+		}(svc)
 	}
+	wg.Wait()
 
 	if svr.sessMgr != nil {
 		svr.sessMgr.Close()
